@@ -190,7 +190,12 @@ def check_property(pid, tier, seed):
     # ---------------------------------------------------------------------- evidence
     bounded = [{"obligation": o["name"], "bound": o["bound"]} for o in obligations if o.get("bound")]
     all_unbounded = not bounded
-    level = spec["level"] if (spec["level"] != "proof" or all_unbounded) else "other"
+    from .manifest_text import TEXT as _MT
+    claimed = _MT[pid]["category"]      # single source: the level claimed in MANIFEST.json
+    if claimed == "proof" and not (all_unbounded and n_disch == n_total):
+        # a proof-level claim needs every obligation unbounded and discharged; anything else is an error of the unit table
+        tool_errors.append(f"{pid}: claimed level 'proof' but {len(bounded)} bounded / {n_total - n_disch} undischarged obligations")
+    level = claimed
     cov = {
         "obligations": n_total,
         "discharged": n_disch,
